@@ -66,7 +66,8 @@ struct Ob {
 const RATIOS: [f64; 7] = [0.0, 0.25, 1.0 / 3.0, 0.5, 2.0 / 3.0, 0.75, 1.0];
 
 /// shape: p0 = strategy (0 slow, 1 error ratio, 2 error count), p1 = breakers (1..2), p2 = window buckets (1..2),
-/// p3 = depth, p4 = retry class (0: shorter than window, 1: longer)
+/// p3 = depth, p4 = retry class (0: shorter than window, 1: longer), p5 >= 1: second event scripted (first entry fails), p5 = 2: additionally count threshold 1 and min_request_amount <= 1,
+/// p6 = 1: gaps of at most 600 ms (still crossing a bucket boundary and the short retry timeout)
 pub fn c03_breaker(s: Shape) {
     let strat = s.p[0] as u8;
     let nb = s.p[1] as usize;
@@ -83,9 +84,9 @@ pub fn c03_breaker(s: Shape) {
     let mut rules = Vec::new();
     let mut obs: Vec<Ob> = Vec::new();
     for b in 0..nb {
-        let min_req = vrt::any_u64("minreq", 0, 3);
+        let min_req = vrt::any_u64("minreq", 0, if s.p[5] == 2 { 1 } else { 3 });
         let (thr, max_rt) = match strat {
-            2 => (vrt::any_u64("thrcount", 0, 4) as f64, 0u64),
+            2 => (vrt::any_u64("thrcount", if s.p[5] == 2 { 1 } else { 0 }, if s.p[5] == 2 { 1 } else { 4 }) as f64, 0u64),
             _ => {
                 // a symbolic choice among the seven thresholds, kept as one term (no fork)
                 let i = vrt::any_usize("thridx", 0, 6);
@@ -151,11 +152,18 @@ pub fn c03_breaker(s: Shape) {
     };
     let mut want_log: Vec<(u8, u8, usize)> = Vec::new();
     let mut open: Vec<(EntryStrongPtr, u64)> = Vec::new();
-    for _ in 0..depth {
-        let gap = vrt::any_u64("gap", 0, if retry0 > 1000 { retry0 as u64 + 100 } else { 1100 });
+    for step in 0..depth {
+        let gap = vrt::any_u64("gap", 0, if s.p[6] == 1 { 600 } else if retry0 > 1000 { retry0 as u64 + 100 } else { 1100 });
         t += gap;
         clock::set_ns(t * 1_000_000);
-        let op = if open.is_empty() { 0 } else { vrt::any_u32("op", 0, 2) };
+        // p5 = 1: the second event is scripted (the first entry completes with an error), the others stay symbolic
+        let op = if open.is_empty() {
+            0
+        } else if s.p[5] >= 1 && step == 1 {
+            2
+        } else {
+            vrt::any_u32("op", 0, 2)
+        };
         if op == 0 {
             // ---- enter
             let mut pass = true;
